@@ -666,3 +666,5 @@ _add_v("C20", "ctl")
 _add_v("C11", "bind_next")                            # `xs[i] += t` is old + t, in that order
 PROPS["C06"]._k = PROPS["C06"]._k + [u for u in [props_lexer.C18_UNITS[1]] + props_lexer.C03_SCANNER_UNITS if u not in PROPS["C06"]._k]   # a literal is sliced out of the source by byte index
 _add_v("C19", "validate")                             # which duplicate parameter is reported must not depend on a hash seed (iteration over a HashMap is not modelled: undecided)
+_add_v("C19", "run_script")                           # which file is read: <cwd>/<path as given>, whatever the spelling; its text reaches the lexer unchanged
+PROPS["C19"].assumptions = PROPS["C19"].assumptions + ["V-run: the file system, the lexer + parser and the evaluator are external"]
